@@ -34,7 +34,7 @@ use crate::{
     current_time_millis,
     dns_cache::{DnsCache, IpType},
     dns_parser::{
-        ip_address_rr_type, DnsAddress, DnsEntryExt, DnsIncoming, DnsOutgoing, DnsPointer,
+        ip_address_rr_type, name_labels_fit, DnsAddress, DnsEntryExt, DnsIncoming, DnsOutgoing, DnsPointer,
         DnsRecordBox, DnsRecordExt, DnsSrv, DnsTxt, InterfaceId, RRType, ScopedIp,
         CLASS_CACHE_FLUSH, CLASS_IN, FLAGS_AA, FLAGS_QR_QUERY, FLAGS_QR_RESPONSE, MAX_MSG_ABSOLUTE,
     },
@@ -384,6 +384,7 @@ impl ServiceDaemon {
     /// Returns [`Error::DaemonShutdown`] if the daemon thread has already exited.
     pub fn browse(&self, service_type: &str) -> Result<Receiver<ServiceEvent>> {
         check_domain_suffix(service_type)?;
+        check_label_lengths(service_type)?;
 
         let (resp_s, resp_r) = bounded(10);
         self.send_cmd(Command::Browse(service_type.to_string(), 1, false, resp_s))?;
@@ -404,6 +405,7 @@ impl ServiceDaemon {
     /// Same error conditions as [`browse`](Self::browse).
     pub fn browse_cache(&self, service_type: &str) -> Result<Receiver<ServiceEvent>> {
         check_domain_suffix(service_type)?;
+        check_label_lengths(service_type)?;
 
         let (resp_s, resp_r) = bounded(10);
         self.send_cmd(Command::Browse(service_type.to_string(), 1, true, resp_s))?;
@@ -446,6 +448,7 @@ impl ServiceDaemon {
         timeout: Option<u64>,
     ) -> Result<Receiver<HostnameResolutionEvent>> {
         check_hostname(hostname)?;
+        check_label_lengths(hostname)?;
         let (resp_s, resp_r) = bounded(10);
         self.send_cmd(Command::ResolveHostname(
             hostname.to_string(),
@@ -487,6 +490,11 @@ impl ServiceDaemon {
     pub fn register(&self, service_info: ServiceInfo) -> Result<()> {
         check_service_name(service_info.get_fullname())?;
         check_hostname(service_info.get_hostname())?;
+        check_label_lengths(service_info.get_fullname())?;
+        check_label_lengths(service_info.get_hostname())?;
+        if let Some(subtype) = service_info.get_subtype() {
+            check_label_lengths(subtype)?;
+        }
 
         self.send_cmd(Command::Register(service_info.into()))
     }
@@ -4264,6 +4272,14 @@ fn check_service_name(fullname: &str) -> Result<()> {
         ));
     }
 
+    Ok(())
+}
+
+/// Checks that every label of `name` can be encoded, i.e. is at most 63 bytes.
+fn check_label_lengths(name: &str) -> Result<()> {
+    if !name_labels_fit(name) {
+        return Err(e_fmt!("{} has a label longer than 63 bytes", name));
+    }
     Ok(())
 }
 
